@@ -40,7 +40,7 @@ EXPLANATION = "same-predicate filtering of parameters, gradients and block-info 
 def cases(tier):
     cs = [f"filter/{c}/{''.join(p)}" for c in ("fully", "hybrid") for p in itertools.product("01", repeat=3)]
     cs += [f"blockinfo/{c}" for c in ("fully", "hybrid")]
-    return cs + ["ribare/hybrid"] + D.update_params_cases("hybrid")
+    return cs + ["ribare/hybrid", "commdtype/hybrid"] + D.update_params_cases("hybrid")
 
 
 class Local:
@@ -177,6 +177,9 @@ def _blockinfo_case(case):
 
 
 def run_case(case, tier, seed):
+    if case.startswith("commdtype/"):
+        from checks import dist as _D
+        return _D.run_comm_dtype(case)
     if case.startswith("filter/"):
         return _filter_case(case)
     if case.startswith("blockinfo/"):
@@ -386,6 +389,10 @@ def replay(r):
 
 def replay_file(doc):
     rp = doc.get("replay_input") or {}
+    if rp.get("kind") == "commdtype":
+        from checks import dist as _D
+        bad = _D.native_comm_dtype(rp["copy"])
+        return bool(bad), bad or "communication dtype mapping holds on the real constructor"
     if rp.get("kind") == "hybrid_case":
         bad = native_hybrid_shard(rp["R"], rp["S"], rp["ntpg"], rp["comm"], rp["cp"], rp["seed"])
         return bool(bad), f"{rp}: {bad}"
